@@ -51,17 +51,19 @@ DEFAULT_SEED = {"quick": 20260923, "thorough": 7}
 REQUIRED_PROBES = {
     "C09": ["i3:checked-shared", "i3:checked-while-bc-dirty", "explicit-result-fed-to-implicit",
             "edit:through-retained-view", "edit:view-of-view", "solve:shared-bc-dirty",
-            "term-reused-3+-solves", "fault-while-target-dirty", "periodic:z-axis-on"],
+            "term-reused-3+-solves", "fault-while-target-dirty", "periodic:z-axis-on",
+            "edit:untracked:", "edit:update_value-from-bc-sharer"],
     "C14": ["algebra:v:add:", "algebra:v:pow:", "algebra:f:sub:scalar-var", "algebra:funceval:3",
             "algebra:faceeval:2", "algebra:funceval:8", "scribble:v", "scribble:b"],
     "C15": ["build:faceLocations:", "build:harmonicMean:", "build:convectionTVDupwindRHSTerm:",
-            "build:tvdMean:", "rebuild:", "scribble:t", "scribble:f"],
+            "rebuild:", "scribble:t", "scribble:f", "mesh:regraded-twin"],
     "C03": ["i4:flags:Grid3D:--P", "i4:flags:SphericalGrid3D:--P", "i4:flags:CylindricalGrid3D:-P-",
             "i4:flags:PolarGrid2D:-P", "i4:flags:Grid1D:P", "util:fixedGradient-scale_coeffs",
-            "edit:scale3:negative"],
+            "edit:scale3:negative", "edit:untracked:", "mesh:regraded-twin"],
     "C04": ["solve:term-format-csc", "term-reused-3+-solves", "solve:shared-bc-dirty"],
     "C12": ["fixedpoint:alpha-field", "fixedpoint:alpha-scalar", "transient:alpha-field",
-            "limit:dt-inf", "limit:dt-zero", "explicit-result-fed-to-implicit"],
+            "limit:dt-inf", "limit:dt-zero", "explicit-result-fed-to-implicit",
+            "edit:update_value-from-bc-sharer"],
 }
 
 COMPONENTS = {
